@@ -34,6 +34,9 @@ RULE = ("utmp files printed from records (every ut_type incl. negative, pid/time
         "every entry point of _psutil_linux/_psutil_posix with ints {0,+-1,2^31+-1,2^63+-1,2^70,...}, str of length 0,15,16,17,4096, "
         "embedded NUL, lone surrogate, bytes, None, float, lists (setters only on the forked child itself or absent PIDs); "
         "Process.ionice(ioclass, value) through the public API; the live interface list against ioctl/sysfs read independently; "
+        "sequences of calls made in ONE process (failing calls with ghost NIC names / absent PIDs, then the live-interface calls, "
+        "net_if_stats(), net_if_addrs(), fed users()/disk_partitions(), with harness-owned descriptors opened in between): every step must "
+        "answer as in a fresh process and the descriptors must survive; "
         "fed interface lists through an LD_PRELOAD getifaddrs() shim compiled at check time (AF_PACKET records with sll_halen in "
         "{0,1,4,6,8,16,20,32,255}, AF_INET/AF_INET6, unknown families, NULL addr/netmask/broadaddr, names up to IFNAMSIZ, every flag mix). "
         "Non-trivial = not the empty file / empty table; distinct = canonical case hash.")
@@ -320,6 +323,55 @@ def _ifaddrs_cases(rng, n):
     return out
 
 
+def _call(ep, *args):
+    return {"op": "call", "ep": ep, "args": list(args)}
+
+
+def _seq_cases(rng, n):
+    """sequences of calls made in ONE process: failing calls (ghost / bad NIC names, absent PIDs), then the live-interface
+    calls, fed users()/disk_partitions(), and harness-owned descriptors opened in between and checked at the end"""
+    live = [c["name"] for c in _live_ifaces()] or ["lo"]
+    rec = {"type": 7, "pid": 4242, "line": b"pts/3".hex(), "id": b"ts/3".hex(), "user": b"alice".hex(), "host": b":0".hex(),
+           "exit": "00" * 4, "session": "00" * 4, "sec": 1700000000, "usec": "00" * 4, "addr": "00" * 16, "unused": "00" * 20}
+    feeds = [{"op": "users", "recs": [rec]}, {"op": "users", "recs": []},
+             {"op": "parts", "all": True, "filesystems": b"\text4\nnodev\tproc\n".hex(), "mounts": b"/dev/sda1 / ext4 rw 0 0\nproc /proc proc rw 0 0\n".hex()},
+             {"op": "parts", "all": False, "filesystems": b"\text4\nnodev\tproc\n".hex(), "mounts": b"/dev/sda1 / ext4 rw 0 0\nproc /proc proc rw 0 0\n".hex()}]
+    fails = [_call("net_if_mtu", _ps("ghost0")), _call("net_if_flags", _ps("ghost0")), _call("net_if_is_running", _ps("nope")),
+             _call("net_if_duplex_speed", _ps("ghost")), _call("net_if_mtu", _ps("")), _call("net_if_mtu", _ps("a" * 16)),
+             _call("net_if_flags", _ps("lo\0x")), _call("net_if_mtu", {"y": b"lo".hex()}), _call("getpriority", _pi(2 ** 31 - 1)),
+             _call("proc_ioprio_get", _pi(2 ** 31 - 1)), _call("proc_cpu_affinity_get", _pi(2 ** 31 - 1)),
+             _call("disk_partitions", _ps("/nonexistent/mounts")), _call("check_pid_range", _pi(-1)), _call("check_pid_range", _pi(2 ** 31))]
+
+    def lives(names):
+        out = []
+        for nm in names:
+            out += [_call("net_if_mtu", _ps(nm)), _call("net_if_flags", _ps(nm)), _call("net_if_is_running", _ps(nm)),
+                    _call("net_if_duplex_speed", _ps(nm))]
+        return out + [{"op": "stats"}, {"op": "addrs"}]
+    out = []
+    # directed: a failing call first / a failing call after a successful one with a descriptor opened in between
+    out.append({"kind": "seq", "cls": "seq-fail-first", "steps": [_call("net_if_mtu", _ps("ghost0"))] + lives(live) + [{"op": "fdcheck"}]})
+    out.append({"kind": "seq", "cls": "seq-fd-recycle", "steps": [{"op": "open"}, _call("net_if_mtu", _ps("lo")), _call("net_if_mtu", _ps("ghost0")),
+                                                              {"op": "open"}, {"op": "open"}] + lives(live) + [{"op": "fdcheck"}]})
+    for ep in ("net_if_flags", "net_if_is_running", "net_if_duplex_speed"):
+        out.append({"kind": "seq", "cls": "seq-fd-recycle", "steps": [{"op": "open"}, _call(ep, _ps("lo")), _call(ep, _ps("ghost0")), {"op": "open"}]
+                    + lives(["lo"]) + [{"op": "fdcheck"}]})
+    for _ in range(n):
+        steps = [{"op": "open"}]
+        for _ in range(rng.randint(1, 4)):
+            steps.append(rng.choice(fails))
+            if rng.random() < 0.4:
+                steps.append({"op": "open"})
+            if rng.random() < 0.4:
+                steps.append(rng.choice(feeds))
+        steps += lives(rng.sample(live, min(len(live), rng.choice([1, 2]))))
+        if rng.random() < 0.5:
+            steps += [rng.choice(fails), rng.choice(feeds)] + lives(["lo"])
+        steps.append({"op": "fdcheck"})
+        out.append({"kind": "seq", "cls": "seq", "steps": steps})
+    return out
+
+
 def _sa_term(tok):
     import ipaddress
     if tok == "-":
@@ -460,6 +512,7 @@ def gen_cases(rng, tier):
     for hi, lo, dup in [(0, 0, 255), (0, 1000, 1), (0, 10, 0), (65535, 65535, 255), (32767, 65535, 1), (32768, 0, 1), (1, 34464, 1), (0, 1000, 7)]:
         cases.append({"kind": "speed", "cls": "speed", "hi": hi, "lo": lo, "duplex": dup})
     cases.extend(_ifaddrs_cases(rng, {"quick": 10, "thorough": 150, "search": 20}[tier]))
+    cases.extend(_seq_cases(rng, {"quick": 8, "thorough": 120, "search": 15}[tier]))
     if tier != "search":
         cases.extend(_entry_cases(rng, tier))
         cases.extend(_live_ifaces())
@@ -514,6 +567,9 @@ def coq_term(case):
         return "run_entry %s %s %s" % (G.bo(FIXED_IOPRIO), ENTRY_COQ[case["ep"]], G.lst([_pyval(a) for a in case["args"]]))
     if k == "ionice":
         return "run_ionice %s 0 %s %s" % (G.bo(FIXED_IOPRIO), G.z(case["ioclass"]), G.z(case["value"] or 0))
+    if k == "seq":
+        calls = [st for st in case["steps"] if st["op"] == "call"]
+        return "run_seq %s %s" % (G.bo(FIXED_IOPRIO), G.lst(["(%s, %s)" % (ENTRY_COQ[c["ep"]], G.lst([_pyval(a) for a in c["args"]])) for c in calls]))
     if k == "ifaddrs":
         return "run_ifaddrs %s" % G.lst(["(Build_ifa %s %s %s %s %s)" % (_hb(r["name"]), G.z(r["flags"]), _sa_term(r["addr"]),
                                                                      _sa_term(r["mask"]), _sa_term(r["baddr"])) for r in case["recs"]])
@@ -546,6 +602,8 @@ def coq_struct(case, raw):
     if k in ("entry", "ionice"):
         os_reached = isinstance(raw, dict) and raw.get("t") == "Os"
         return {"cres": raw, "model": None if os_reached else raw, "spec": None}
+    if k == "seq":
+        return {"cres": raw, "model": None, "spec": None}
     if k == "ifaddrs":
         m = raw[0]
         if _oom(m):
@@ -611,36 +669,62 @@ def finding_key(case, coq):
     return None
 
 
+def _step_name(st):
+    return st["op"] if st["op"] != "call" else "%s(%s)" % (st["ep"], ", ".join(repr(_py(a))[:30] for a in st["args"]))
+
+
+def _judge_call(ep, cres, impl):
+    from pv.core import Verdict
+    tag = cres["t"]
+    if tag == "UB":
+        # the model computes an out-of-range C integer: the property is violated on the model; the sanitizer must see it too
+        if impl == cres:
+            return Verdict("violation", "signed integer overflow in C (UBSan): %s" % (impl,))
+        if _is_abort(impl):
+            return Verdict("violation", "crash / sanitizer abort: %s" % (str(impl)[:300],))
+        return Verdict("corr", "model predicts undefined behaviour, implementation answered %s" % (str(impl)[:200],))
+    if _is_abort(impl):
+        return Verdict("violation", "crash / sanitizer abort: %s" % (str(impl)[:400],))
+    if tag == "Os":
+        if impl.get("t") == "Val" or impl == Exc("OSError") or impl.get("t") == "Exc" and impl["a"][0]["t"] in (
+                "NoSuchProcess", "AccessDenied", "ZombieProcess"):
+            if ep in ("net_if_mtu", "net_if_flags", "net_if_is_running", "net_if_duplex_speed"):
+                # the name the kernel sees is the model's 15-byte cut: "lo" must answer, an absent name must not
+                seen = bytes.fromhex(cres["a"][2]["b"])
+                if seen == b"lo" and impl.get("t") != "Val":
+                    return Verdict("corr", "interface 'lo' exists but the call raised %s" % (impl,))
+                if not os.path.exists(os.path.join(b"/sys/class/net", seen or b"\xff")) and impl.get("t") == "Val":
+                    return Verdict("corr", "no interface %r but the call returned %s" % (seen, impl))
+            return Verdict("ok")
+        return Verdict("corr", "arguments reach the OS in the model, implementation raised %s" % (impl,))
+    return Verdict("ok") if impl == cres else Verdict("corr", "impl %s != model %s" % (impl, cres))
+
+
 def judge(case, coq, impl):
     from pv.core import Verdict
     k = case["kind"]
     if isinstance(impl, dict) and impl.get("t") == "Skip":
         return Verdict("skip", str(impl.get("a")))
     if k in ("entry", "ionice"):
-        cres = coq["cres"]
-        tag = cres["t"]
-        if tag == "UB":
-            # the model computes an out-of-range C integer: the property is violated on the model; the sanitizer must see it too
-            if impl == cres:
-                return Verdict("violation", "signed integer overflow in C (UBSan): %s" % (impl,))
-            if _is_abort(impl):
-                return Verdict("violation", "crash / sanitizer abort: %s" % (str(impl)[:300],))
-            return Verdict("corr", "model predicts undefined behaviour, implementation answered %s" % (str(impl)[:200],))
-        if _is_abort(impl):
-            return Verdict("violation", "crash / sanitizer abort: %s" % (str(impl)[:400],))
-        if tag == "Os":
-            if impl.get("t") == "Val" or impl == Exc("OSError") or impl.get("t") == "Exc" and impl["a"][0]["t"] in (
-                    "NoSuchProcess", "AccessDenied", "ZombieProcess"):
-                if case.get("ep") in ("net_if_mtu", "net_if_flags", "net_if_is_running", "net_if_duplex_speed"):
-                    # the name the kernel sees is the model's 15-byte cut: "lo" must answer, an absent name must not
-                    seen = bytes.fromhex(cres["a"][2]["b"])
-                    if seen == b"lo" and impl.get("t") != "Val":
-                        return Verdict("corr", "interface 'lo' exists but the call raised %s" % (impl,))
-                    if not os.path.exists(os.path.join(b"/sys/class/net", seen or b"\xff")) and impl.get("t") == "Val":
-                        return Verdict("corr", "no interface %r but the call returned %s" % (seen, impl))
-                return Verdict("ok")
-            return Verdict("corr", "arguments reach the OS in the model, implementation raised %s" % (impl,))
-        return Verdict("ok") if impl == cres else Verdict("corr", "impl %s != model %s" % (impl, cres))
+        return _judge_call(case.get("ep"), coq["cres"], impl)
+    if k == "seq":
+        if _is_abort(impl) or not isinstance(impl, dict) or "seq" not in impl:
+            return Verdict("violation", "crash / sanitizer abort in a sequence of calls: %s" % (str(impl)[:400],))
+        seq, fresh = impl["seq"], impl["fresh"]
+        for i, (st, a, b) in enumerate(zip(case["steps"], seq, fresh)):
+            if _is_abort(a):
+                return Verdict("violation", "step %d (%s): crash / sanitizer abort: %s" % (i, _step_name(st), str(a)[:300]))
+            if a != b:
+                fds = [x for st2, x in zip(case["steps"], seq) if st2["op"] == "fdcheck"]
+                return Verdict("violation", "step %d (%s) answers %s after the earlier calls of the same process, %s in a fresh process%s"
+                               % (i, _step_name(st), str(a)[:160], str(b)[:160],
+                                  "; application descriptors at the end: %s" % fds[-1] if fds else ""))
+        calls = [(st, a) for st, a in zip(case["steps"], seq) if st["op"] == "call"]
+        for (st, a), cres in zip(calls, coq["cres"]):
+            v = _judge_call(st["ep"], cres, a)
+            if v.kind != "ok":
+                return v
+        return Verdict("ok")
     if k in ("netif", "speed") and coq.get("ub"):
         if impl == coq["model"]:
             return Verdict("violation", "signed integer overflow in C (UBSan): speed_hi << 16 in psutil_ethtool_cmd_speed")
@@ -784,6 +868,78 @@ def impl_run(case, coq, env):
             p = psutil.Process()
             return _outcome(lambda: p.ionice(case["ioclass"], case["value"]), lambda v: None if v is None else T("Some", repr(v)[:80]))
         return _iso(call)
+    if k == "seq":
+        import ctypes
+
+        def some(v):
+            return None if v is None else T("Some", repr(v)[:300])
+
+        def step(st, state):
+            op = st["op"]
+            if op == "call":
+                fn = getattr(cext_posix if st["ep"] in POSIX_EPS else cext, st["ep"])
+                args = [_py(a) for a in st["args"]]
+                return _outcome(lambda: fn(*args), some)
+            if op == "stats":
+                return _outcome(psutil.net_if_stats, lambda d: sorted([n, bool(v.isup), int(v.duplex), v.speed, v.mtu, v.flags] for n, v in d.items()))
+            if op == "addrs":
+                return _outcome(psutil.net_if_addrs, lambda d: sorted([n, [[int(r.family), r.address, r.netmask, r.broadcast, r.ptp] for r in v]]
+                                                                        for n, v in d.items()))
+            if op == "users":
+                content = b"".join(struct.pack("<hxxi32s4s32s256s4s4si4s16s20s", r["type"], r["pid"], *[bytes.fromhex(r[f]) for f in ("line", "id", "user", "host", "exit", "session")],
+                                               r["sec"], *[bytes.fromhex(r[f]) for f in ("usec", "addr", "unused")]) for r in st["recs"])
+                path = os.path.join(work, "seq_utmp")
+                with open(path, "wb") as f:
+                    f.write(content)
+                assert ctypes.CDLL(None).utmpname(path.encode()) == 0
+                return _outcome(psutil.users, _users_rows)
+            if op == "parts":
+                root = os.path.join(work, "seq_proc")
+                os.makedirs(os.path.join(root, "self"), exist_ok=True)
+                with open(os.path.join(root, "filesystems"), "wb") as f:
+                    f.write(bytes.fromhex(st["filesystems"]))
+                with open(os.path.join(root, "self", "mounts"), "wb") as f:
+                    f.write(bytes.fromhex(st["mounts"]))
+                old = psutil.PROCFS_PATH
+                psutil.PROCFS_PATH = root
+                try:
+                    return _outcome(lambda: psutil.disk_partitions(all=st["all"]),
+                                    lambda rows: [[B(os.fsencode(x)) for x in (r.device, r.mountpoint, r.fstype, r.opts)] for r in rows])
+                finally:
+                    psutil.PROCFS_PATH = old
+            if op == "open":          # a descriptor owned by the harness (the "application")
+                n = len(state["fds"])
+                path = os.path.join(work, "seq_app_%d" % n)
+                marker = ("application data %d" % n).encode()
+                fd = os.open(path, os.O_RDWR | os.O_CREAT | os.O_TRUNC, 0o600)
+                os.write(fd, marker)
+                state["fds"].append((fd, os.fstat(fd).st_ino, marker))
+                return "opened"
+            if op == "fdcheck":
+                for fd, ino, marker in state["fds"]:
+                    try:
+                        if os.fstat(fd).st_ino != ino or os.pread(fd, len(marker), 0) != marker:
+                            return "descriptor %d of the application now refers to something else" % fd
+                    except OSError as e:
+                        return "descriptor %d of the application is gone: %s" % (fd, e.strerror)
+                return "fds-ok"
+            raise ValueError(op)
+
+        def whole():
+            state = {"fds": []}
+            return [step(st, state) for st in case["steps"]]
+        seq = _iso(whole)
+        if not isinstance(seq, list):
+            return seq           # abort of the whole sequence
+        fresh = []
+        for st in case["steps"]:
+            if st["op"] == "open":
+                fresh.append("opened")
+            elif st["op"] == "fdcheck":
+                fresh.append("fds-ok")
+            else:
+                fresh.append(_iso(lambda st=st: step(st, {"fds": []})))
+        return {"seq": seq, "fresh": fresh}
     if k == "ifaddrs":
         from props import _c17_ifshim as S
         so = S.build(work)
@@ -862,7 +1018,8 @@ MANIFEST = {
             "of the model (full-width utmp fields read across field borders and past the record; signed 'ioclass << 13' and 'speed_hi << 16'; "
             "strict UTF-8 on mount type/options). The compiled code is tied to the model by running the real extension built with clang "
             "ASan+UBSan on generated utmp files, mount tables, interface lists fed through a getifaddrs() shim compiled at check time, and an argument sweep over all entry "
-            "points, each call in a forked child; a sanitizer report is a failing input.",
+            "points, each call in a forked child, plus sequences of calls inside one process that must answer as in a fresh process and leave "
+            "the application's descriptors alone; a sanitizer report is a failing input.",
     "note": "Partial by nature: memory safety of the compiled C is observed (sanitizers) on the generated runs, not proved; Trusted: Coq kernel + "
             "vm_compute; hand-written model coq/C17/Model.v; record formats in coq/C17/Spec.v; glibc; the sanitizer runtime; the harness.",
 }
